@@ -458,6 +458,21 @@ func checkChildrenSlice(c *Ctx, gc *GCNF, s *linkSite) string {
 				}
 			}
 			return true
+		case t.Op == "res" && len(t.Args) == 1 && (t.Args[0].Op == "stddo" || t.Args[0].Op == "std") && t.Args[0].Leaf == "slices.Insert" && len(t.Args[0].Args) >= 3:
+			// slices.Insert(S, i, vs...): the elements of S and the inserted values
+			args := t.Args[0].Args
+			if len(args) > 0 && args[0].Op == "@" {
+				args = args[1:]
+			}
+			if len(args) < 3 || !collect(args[0]) {
+				return false
+			}
+			for _, a := range args[2:] {
+				if !collect(a) {
+					return false
+				}
+			}
+			return true
 		case t.Op == "slice":
 			return collect(t.Args[0])
 		case t.String() == "#:nil":
